@@ -4,6 +4,7 @@
 package posex
 
 import (
+	"encoding/binary"
 	"hash"
 	"sync"
 	"sync/atomic"
@@ -53,4 +54,13 @@ type latestSyncHandler struct {
 
 func (h *latestSyncHandler) forget(k string) {
 	h.m.Delete(k)
+}
+
+// twoVarintsInOneScratch writes two varints one after the other into an array
+// with room for one (positive example for C11.M2-varint-scratch-holds).
+func twoVarintsInOneScratch(a, b uint64) []byte {
+	var hdr [binary.MaxVarintLen64]byte
+	n := binary.PutUvarint(hdr[:], a)
+	n += binary.PutUvarint(hdr[n:], b)
+	return hdr[:n]
 }
